@@ -671,6 +671,84 @@ func (s *listSUT) Scenario(r *rand.Rand) []core.Ev {
 		case <-time.After(4 * time.Millisecond):
 		}
 	}
+	if _, ok := l.(*hiveList); ok && r.Intn(4) == 0 {
+		// the list is pushed onto ITSELF (l.PushBackList(l) / l.PushFrontList(l)): reading the argument and inserting its
+		// values is one step.  If the call reads the list through Range/Values (hook list-range-step) the mutator is started
+		// at the at-th step; a mutator that finishes while the push is still reading took effect BEFORE the push (the push
+		// cannot have inserted anything it has not read yet), so it is logged first.  A mutator that had to wait while the
+		// push stood in the middle of its reading cannot be ordered from outside: the trace ends there.
+		mnew := 0
+		if op := core.Str(m, "op"); op == "PushFront" || op == "PushBack" || op == "InsertBefore" || op == "InsertAfter" {
+			mnew = 1
+		}
+		if l.Len()+mnew+1 > s.free() {
+			return nil
+		}
+		pbl := core.Ev{"op": core.Pick(r, "PushBackList", "PushFrontList"), "l": li, "o": li}
+		armed, fired, during := true, false, false
+		self := curGoroutine()
+		preLen := l.Len()
+		ds.VerifHook = func(p string) {
+			// (Apply runs the push itself in a goroutine of its own and reads the state afterwards on this one)
+			if armed && p == "list-range-step" && curGoroutine() != self {
+				if cnt++; cnt == at {
+					armed, fired = false, true
+					meanwhile()
+					select {
+					case <-done:
+						during = true
+					default:
+					}
+				}
+			}
+		}
+		pres, pst := s.Apply(pbl)
+		armed = false
+		ds.VerifHook = nil
+		lenOf := func(st any) int {
+			if ev, ok := st.(core.Ev); ok {
+				if ls, ok := ev[fmt.Sprintf("l%d", li)].(core.Ev); ok {
+					return core.Int(ls, "len")
+				}
+			}
+			return -1
+		}
+		delta := mnew
+		if core.Str(m, "op") == "Remove" {
+			delta = -1
+		}
+		line := func(e core.Ev, res, st any) core.Ev {
+			out := core.Ev{}
+			for k, v := range e {
+				out[k] = v
+			}
+			out["res"], out["st"] = res, st
+			return out
+		}
+		switch {
+		case !fired:
+			meanwhile()
+			<-done
+			return []core.Ev{line(pbl, pres, pst), line(m, mres, mst)}
+		case during:
+			return []core.Ev{line(m, mres, mst), line(pbl, pres, pst)}
+		}
+		// the mutator had to wait while the push stood in the middle of its reading
+		select {
+		case <-done:
+		case <-time.After(5 * time.Second):
+			s.dead = true
+			return nil
+		}
+		switch {
+		case lenOf(mst) == preLen+delta: // what the mutator saw right after its call: its own effect, nothing pushed yet
+			return []core.Ev{line(m, mres, mst), line(pbl, pres, pst)}
+		case lenOf(pst) == 2*preLen && lenOf(mst) == 2*preLen+delta: // the push alone, then the mutator on top of it
+			return []core.Ev{line(pbl, pres, pst), line(m, mres, mst)}
+		}
+		s.dead = true // (the observations overlap: the two calls cannot be ordered from outside; the trace ends here)
+		return nil
+	}
 	var x string
 	if hl, ok := l.(*hiveList); ok && r.Intn(2) == 0 {
 		// the iteration APIs without a consumer that could stop them half-way (Values, Range, RangeReverse): the list's own
